@@ -50,6 +50,16 @@ def cases(tier, rng):
             continue
         out.append("b%d enchdr %s" % (k, ",".join(str(l) for l in lens)))
         k += 1
+    # the bytes real sockets put on an attached connection (and their handshake: greeting + READY)
+    for t, pt in (("PUSH", "PULL"), ("DEALER", "ROUTER"), ("REQ", "REP"), ("PUB", "SUB"), ("ROUTER", "DEALER")):
+        for lens in [(0,), (255,), (256,), (1, 0, 257), (65536, 2)] + [tuple(rng.choice(GRID_SMALL) for _ in range(rng.randint(1, 4))) for _ in range(6)]:
+            m = ";".join(frame_tok(l, k + i) for i, l in enumerate(lens))
+            pre = "attach a %s" % pt
+            if t == "PUB":
+                pre += " / feed a 000101 / settle"
+            snd = "send @a;%s" % m if t == "ROUTER" else "send %s" % m
+            out.append("w%d sock %s / %s / hs a / %s / wire a" % (k, t, pre, snd))
+            k += 1
     out.append("g%d greet default" % k)
     k += 1
     for a in (0, 1, 2, 3, 4, 255):
@@ -86,6 +96,15 @@ def py_hdr(more, n):
     return bytes([3 if more else 2]) + n.to_bytes(8, "big")
 
 
+def model_cases(case_lines):
+    # the model has no `hs` observation: drop that op on the model side
+    return [l.replace(" / hs a", "") for l in case_lines]
+
+
+def norm_impl(o, line=None):
+    return " ".join(t for t in o.split() if not t.startswith("hs:"))
+
+
 def oracle_cases(case_lines, impl):
     """Second model pass: the extracted RFC parser over the implementation's bytes."""
     oc = []
@@ -99,6 +118,13 @@ def oracle_cases(case_lines, impl):
             oc.append("o%s rfcgreet %s" % (cid, obs))
         elif kind == "ready" and obs and obs != "panic":
             oc.append("o%s rfccmd %s" % (cid, obs))
+        elif kind == "sock":
+            for tk in obs.split():
+                if tk.startswith("hs:a=") and len(tk) > 5 + 128:
+                    oc.append("o%s rfcgreet %s" % (cid, tk[5:5 + 128]))
+                    oc.append("c%s rfccmd %s" % (cid, tk[5 + 128:]))
+                if tk.startswith("wire:a=") and tk != "wire:a=-":
+                    oc.append("m%s rfcmsg %s" % (cid, tk[7:]))
     return oc
 
 
@@ -133,6 +159,22 @@ def judge(line, impl_obs, orc):
         for i, (l, t) in enumerate(zip(lens, toks)):
             if t != py_hdr(i < len(lens) - 1, l).hex() + ":1":
                 return "frame %d (len %d) header/body wrong: %s" % (i, l, t)
+    elif kind == "sock":
+        t = sp[2]
+        if orc.get("o" + cid) != "ok 3.0 NULL":
+            return "greeting sent by a %s socket is not the well-formed 3.0/NULL greeting: %s" % (t, orc.get("o" + cid))
+        c = orc.get("c" + cid, "")
+        if c != "ok READY %s=%s" % (b"Socket-Type".hex(), t.encode().hex()):
+            return "READY sent by a %s socket: %s" % (t, c[:100])
+        sent = [t2 for t2 in line.split(" / ") if t2.startswith("send ")][0][5:].split(";")
+        if t == "ROUTER":
+            sent = sent[1:]
+        frames = [expand(x) for x in sent]
+        if t == "REQ":
+            frames = [b""] + frames
+        want = "ok " + ";".join(f.hex() or "-" for f in frames) + " rest=0"
+        if orc.get("m" + cid) != want:
+            return "bytes written by the %s socket do not parse back to the message sent: %s" % (t, (orc.get("m" + cid) or "")[:100])
     elif kind == "greet":
         got = orc.get("o" + cid, "")
         if not got.startswith("ok "):
